@@ -218,6 +218,11 @@ int __lsan_do_recoverable_leak_check(void);
 static void scenario(char **lines, int nlines) {
     memset(slots, 0, sizeof(slots));
     vh_recycle = 1;
+#ifndef VS_TSAN
+    vs_page_recycle = 1;
+    vh_take_page_block = vs_take_from_retired_page;
+    vh_give_page_block = vs_give_back_to_retired;
+#endif
     memset(&mainp, 0, sizeof(mainp));
     memset(&postp, 0, sizeof(postp));
     memset(thr, 0, sizeof(thr));
